@@ -195,8 +195,11 @@ class OnMessage:
                                                                 and self.g_byte2 == 0 and self.g_byte3 == 4
                                                                 and delivered == 0 and routed == 0)
             else:
-                out["selected.delivered-exactly-once"] = (sent == 0 and routed == ite(was_open, 1, 0)
-                                                          and delivered == ite(was_open, 0, 1))
+                # a reply never carries the W-bit: a message with W-bit is a primary of the peer also when its system bytes
+                # happen to equal those of an own open transaction (system bytes are unique per originator only) - D40
+                is_reply = was_open and not h._require_response
+                out["selected.delivered-exactly-once"] = (sent == 0 and routed == ite(is_reply, 1, 0)
+                                                          and delivered == ite(is_reply, 0, 1))
         return out
 
     def replay(case, name, model):
